@@ -506,6 +506,9 @@ def normalise(modname: str, tree: ast.AST, mutable_attrs: set[str] | None = None
     ref = reference_defs(modname)
     if not ref:
         return {}
+    from . import paths
+
+    paths.MUTABLE_ATTRS = mutable_attrs
     log: dict[str, dict[str, str]] = {}
     strip_annotations(tree)
     nested = {q: {n.name for n in ast.walk(r) if isinstance(n, FuncT) and n is not r} for q, r in ref.items()}
